@@ -181,6 +181,34 @@ theorem C06_run_frame (pf vf : Nat) (mode : Mode) (files : List Bytes) :
           fun hm q hq => by rw [b.2.2 hm q hq, a.2.2 hm q hq]⟩
     all_goals simp at h
 
+/-- a whole run over a DIRECTORY (every command lists it again, `runFilesDir`): NOTHING changes no file; NEW leaves
+every path that is not of the form `<something>.vored` byte-identical — whatever the commands created meanwhile -/
+theorem C06_run_dir_frame (pf vf : Nat) (mode : Mode) :
+    ∀ (cmds : List BCmd) (fs fs' : FileSys) (ms : List Match),
+      runFilesDir pf vf mode cmds fs = some (.ok (ms, fs')) →
+      (mode = .nothing → fs' = fs) ∧
+      (mode = .new → ∀ q, (∀ f, q ≠ f ++ voredSuffix) → fs'.get q = fs.get q) := by
+  intro cmds
+  induction cmds with
+  | nil =>
+    intro fs fs' ms h
+    simp only [runFilesDir, Option.some.injEq, Res.ok.injEq, Prod.mk.injEq] at h
+    obtain ⟨_, rfl⟩ := h
+    exact ⟨fun _ => rfl, fun _ _ _ => rfl⟩
+  | cons c cs ih =>
+    intro fs fs' ms h
+    simp only [runFilesDir] at h
+    split at h
+    · next ms1 fs1 h1 =>
+      split at h <;> simp at h
+      next more fs2 h2 =>
+        obtain ⟨_, rfl⟩ := h
+        have a := runFilesCmd_frame pf vf mode c (listDir fs) fs fs1 ms1 h1
+        have b := ih fs1 fs2 more h2
+        exact ⟨fun hm => by rw [b.1 hm, a.1 hm],
+          fun hm q hq => by rw [b.2 hm q hq, a.2.1 hm q (fun f _ => hq f)]⟩
+    all_goals simp at h
+
 /-- the one-file run the correspondence drives is the list run on `[f]` -/
 theorem C06_run_single (pf vf : Nat) (mode : Mode) (f : Bytes) :
     ∀ (cmds : List BCmd) (fs : FileSys), runFilesL pf vf mode [f] cmds fs = runFiles pf vf mode f cmds fs := by
@@ -215,6 +243,7 @@ theorem C06_run_single (pf vf : Nat) (mode : Mode) (f : Bytes) :
 #print axioms C06_find_pure
 
 #print axioms C06_run_frame
+#print axioms C06_run_dir_frame
 #print axioms C06_run_single
 
 end Vore
